@@ -120,7 +120,7 @@ func vpH_c09_cmd_basic() {
 
 func vpH_c09_cmd_plugins() {
 	x := &CommandStep{Command: "c"}
-	src := "p" + vpStrUpTo(1, "a-c")
+	src := "p" + vpStrUpTo(1, "a-cA")
 	var cfg any
 	cfgKind := vpInt(0, 8)
 	cv := vpStrUpTo(1, "x-z")
